@@ -309,6 +309,7 @@ class Interp:
         self.unknown_calls = []  # names of callees that returned TOP because nothing was known
         self.assert_hook = None  # fn(state, frame, term, outcome) for recording assert discharges
         self.on_unknown_call = None
+        self.index_read_hook = None  # fn(interp, st, heap model, index value) -> value
         self.cov = set()  # (instance id, bb) executed at least once
         self.binop_hooks = []  # fn(st, op, a, b, tid) -> value | None (extension values such as ordinals)
         self.overflow_hooks = []  # fn(st, base_op, a, b, tid) -> (result, flag) | None
@@ -470,8 +471,14 @@ class Interp:
         for step in proj:
             if isinstance(cur, Obj):
                 # element access into an abstract heap object is handled by its model
-                model = st.heap[cur.id]
-                raise IndexOnAbstract(model, step)
+                cur = st.heap[cur.id]
+            if not isinstance(cur, V):
+                if step[0] == "i" and self.index_read_hook is not None:
+                    sub = self.index_read_hook(self, st, cur, step[1])
+                    path_vals.append(sub)
+                    cur = sub
+                    continue
+                raise IndexOnAbstract(cur, step)
             sub, cur2 = self._step_into(st, cur, step, True)
             if cur2 is not cur:
                 changed = True
@@ -894,6 +901,8 @@ class Interp:
                 v = self.read_path(st, a.base, a.proj)
             except IndexOnAbstract:
                 v = None
+            if v is not None and not isinstance(v, V) and hasattr(v, "length"):
+                return v.length(self, st)
             if isinstance(v, Agg) and v.ty is None:
                 return Conc(len(v.fields))
             if isinstance(v, Str):
@@ -1217,7 +1226,13 @@ class Interp:
         if k == "use":
             return self.operand(st, f, r["a"])
         if k == "ref" or k == "rawptr":
-            base, proj = self.resolve_place(st, f, r["p"])
+            pl = r["p"]
+            if pl.get("p") == ["*"]:
+                # reborrow `&*x`: identity for string constants and plain references
+                v0 = f.locals.get(pl["l"])
+                if isinstance(v0, (Str, Ref)):
+                    return v0
+            base, proj = self.resolve_place(st, f, pl)
             return Ref(base, proj)
         if k == "bin":
             op = r["op"]
